@@ -108,13 +108,7 @@ def history(rng, wld, nsteps, keys):
             if not ok:
                 _force_unlock(wr)
         elif end < 0.2:
-            def failing_block():
-                try:
-                    with wr:
-                        raise RuntimeError("boom")
-                except RuntimeError:
-                    pass
-            ok, _ = wld.guarded(name, "with-block", failing_block)
+            ok, _ = wld.guarded(name, "with-block", lambda: ixcommon.failing_block(wr, rng))
             if not ok:
                 _force_unlock(wr)
         elif end < 0.45:
